@@ -76,6 +76,43 @@ def _judge(ctx, est, out, g, m, a, mg, sa, sm, tol, site, key):
         ctx.fail(site, key, out, {'residual': e}, tol)
 
 
+def _decoy(ename):
+    """Use ANOTHER configuration of the same estimator class (other references, declination, frame, weights, method ...) on other data.
+    An estimator must not be influenced by what other instances of its class did before (state cached per class or module)."""
+    from ahrs import filters as F
+    a = np.array([0.3, -0.2, 0.9]) * 9.0
+    m = np.array([0.6, 0.5, -0.4]) * 30.0
+    d = 25.0
+    v2 = np.array([rf.cd(35.0) * rf.cd(d), rf.cd(35.0) * rf.sd(d), rf.sd(35.0)])
+    try:
+        if ename.startswith('TRIAD'):
+            F.TRIAD(a, m, v1=np.array([0.1, -0.2, 0.97]), v2=v2, frame='NED').A
+            F.TRIAD(a, m, v1=np.array([0.0, 0.0, -1.0]), v2=np.array([0.2, 0.9, -0.3]), frame='ENU', representation='quaternion').A
+        elif ename.startswith('Davenport'):
+            F.Davenport(a, m, magnetic_dip=-20.0, weights=np.array([1.0, 3.0])).Q
+        elif ename.startswith('QUEST'):
+            F.QUEST(a, m, magnetic_dip=-20.0, weights=np.array([0.2, 0.8])).Q
+        elif ename.startswith('FLAE'):
+            for meth in ('eig', 'symbolic', 'newton'):
+                F.FLAE(a, m, method=meth, magnetic_dip=-20.0, weights=np.array([1.0, 3.0])).Q
+        elif ename.startswith('OLEQ'):
+            F.OLEQ(a, m, magnetic_ref=v2.copy(), frame='NED', weights=np.array([1.0, 3.0])).Q
+            F.OLEQ(a, m, magnetic_ref=-20.0, frame='ENU').Q
+        elif ename.startswith('FQA'):
+            F.FQA(a, m, mag_ref=v2.copy()).Q
+        elif ename.startswith('Tilt'):
+            for rep in ('quaternion', 'rotmat', 'angles'):
+                F.Tilt(a, m, representation=rep).Q
+        elif ename.startswith('SAAM'):
+            F.SAAM(a, m, representation='rotmat').A
+        elif ename.startswith('FAMC'):
+            F.FAMC(a, m).Q
+        elif ename.startswith('AQUA'):
+            F.AQUA(frame='ENU', alpha=0.3, adaptive=True).estimate(a, m)
+    except Exception:
+        pass
+
+
 def job_est(ctx, ename, k, lo, hi):
     est = [e for e in rf.registry() if e.name == ename][0]
     atts = attitudes(est.cls, k)[lo:hi]
@@ -83,13 +120,17 @@ def job_est(ctx, ename, k, lo, hi):
     scal = SCAL_T if ctx.thorough else SCAL_Q
     if est.tilt_only:
         dips = dips[:1]
+    extra_dip = None
+    if est.seeded and not ctx.thorough:
+        extra_dip = -80.0          # slowest contraction of OLEQ's iteration; only every 6th attitude in the quick tier
     tol0 = TOL[est.cls]
     real_random = np.random.random
-    for lab, q in atts:
+    for ai, (lab, q) in enumerate(atts):
         Rt = rq.R(q)
         _pose_classes(ctx, Rt, q)
         for frame in est.frames:
-            for dip in dips:
+            for dip in (dips + [extra_dip] if (extra_dip is not None and (lo + ai) % 6 == 0) else dips):
+                _decoy(ename)
                 g, m = est.refs(dip, frame)
                 for sa, sm in scal:
                     a, mg = est.measurements(Rt, dip, frame, sa, sm)
